@@ -420,6 +420,29 @@ func runProofs(b *harness.B, era string, part int) {
 				}
 			}
 		}
+		// the same honest v1 proofs sharing ONE transaction, in group order and reversed: every proof is judged on its
+		// own data whatever precedes it
+		if len(honestV1) >= 2 {
+			for _, rev := range []bool{false, true} {
+				var one types.Transaction
+				for k := range honestV1 {
+					t := honestV1[k]
+					if rev {
+						t = honestV1[len(honestV1)-1-k]
+					}
+					one.StorageProofs = append(one.StorageProofs, t.StorageProofs...)
+				}
+				if blk, bs, err := c.BlockWith([]types.Transaction{one}, nil); err == nil {
+					verr := consensus.ValidateBlock(cs, blk, bs)
+					b.Eval(1)
+					b.Count("honest_v1_proofs_sharing_one_transaction", 1)
+					b.Distinct(era, "shared-transaction", rev, len(one.StorageProofs))
+					if verr != nil {
+						b.Violate("C07/storage-proof/honest-proof-rejected/proofs-sharing-one-transaction/era-"+era, fmt.Sprintf("%d honest proofs, each accepted in a transaction of its own, are rejected when they share one transaction (reversed=%v): %s", len(one.StorageProofs), rev, chaingen.NormErr(verr)), map[string]any{"era": era, "reversed": rev})
+					}
+				}
+			}
+		}
 		// resolve: submit all honest proofs in one real block (exercises the lifecycle monitor), then move on
 		if len(honestV1)+len(honestV2) > 0 {
 			if blk, bs, err := c.BlockWith(honestV1, honestV2); err == nil {
